@@ -171,7 +171,7 @@ def stats_extra(xpid, case, out, acc):
 # `try_send` towards a full manager channel drops the report, the slot leaks).
 from . import cross as _cross  # noqa: E402
 _cross.install(globals(), "C07", "ProtocolSet close report, c07 area",
-               keep=lambda v: "manager" in v["msg"], count={"quick": 600, "thorough": 8000, "search": 1200})
+               keep=lambda v: "manager" in v["msg"], count={"quick": 200, "thorough": 4000, "search": 400})
 
 # ---------------------------------------------------------------- real nodes through the public API (engine: extra_cases)
 # `Litep2p::new` (src/lib.rs) and `ConfigBuilder` (src/config.rs) hand every protocol its configuration; the `node` area
